@@ -10,6 +10,8 @@ boom := {|i| i.p; raise Err.new("E" + i.S)}
 boomz := {|i| i.p; 1 / 0}
 boomn := {|i| i.p; nopename}
 boomp := {|i| i.p; 1.nopeprop}
+booms := {|i| i.p; raise StopIterErr.new("S" + i.S)}
+boomx := {|i| i.p; []._iter.next}
 f3 := {|a, b, c| [a, b, c]}
 fk := {|a, k1: 0, k2: 0| [a, k1, k2]}
 idf := {|x| x}
@@ -22,7 +24,9 @@ f2p := {|a, x| x.p; a}
 '''
 BOOMS = {"boom": ("Err", "E%d"), "boomz": ("ZeroDivisionErr", "cannot be divided by 0"),
          "boomn": ("NameErr", "name `nopename` is not defined"),
-         "boomp": ("NoPropErr", "property `nopeprop` is not defined.")}
+         "boomp": ("NoPropErr", "property `nopeprop` is not defined."),
+         # StopIterErr is the kind the evaluator's own loops watch for: raised by a step it must stop the program like any other
+         "booms": ("StopIterErr", "S%d"), "boomx": ("StopIterErr", "iter stopped")}
 
 # (name, format, evaluation order of the holes, which helper each hole uses by default)
 TEMPLATES = [
@@ -39,6 +43,10 @@ TEMPLATES = [
     ("args", "f3({0}, {1}, {2})", [0, 1, 2], "ttt"),
     ("args_unpack", "f3({0}, *[{1}, {2}])", [0, 1, 2], "ttt"),
     ("kwargs", "fk({0}, k1: {1}, k2: {2})", [0, 1, 2], "ttt"),
+    ("kwargs_dup", "fk({0}, k1: {1}, k1: {2})", [0, 1, 2], "ttt"),
+    ("kwargs_dup3", "fk(1, k2: {0}, k1: {1}, k2: {2})", [0, 1, 2], "ttt"),
+    ("obj_dup", "{{a: {0}, a: {1}, b: {2}}}", [0, 1, 2], "ttt"),
+    ("map_dup", "%{{1: {0}, 1: {1}, 2: {2}}}", [0, 1, 2], "ttt"),
     ("recv_arg", "[{0}].has?({1})", [0, 1], "tt"),
     ("recv_chainarg_arg", "[{0}]@([{1}])+({2})", [0, 1, 2], "ttt"),
     ("if_then", "{1} if {0} else {2}", [0, 1], "ttt"),
@@ -50,6 +58,11 @@ TEMPLATES = [
     ("assign", "{{|| x := {0}; y := {1}; x + y}}()", [0, 1], "tt"),
     ("slice", "[1, 2, 3, 4][{0}:{1}]", [0, 1], "tt"),
     ("prefix", "-{0}", [0], "t"),
+    ("prefix_arg", "idf(!{0})", [0], "t"),
+    ("prefix_args", "f3(-{0}, !{1}, -{2})", [0, 1, 2], "ttt"),
+    ("prefix_recv_arg", "[{0}].has?(-{1})", [0, 1], "tt"),
+    ("prefix_kwarg", "fk(!{0}, k1: -{1})", [0, 1], "tt"),
+    ("prefix_infix_arg", "idf(!({0} || {1}))", [0, 1], "zt"),
     ("return", "{{|| return {0}; {1}}}()", [0], "tt"),
     ("litcall_recv", "{0}.{{|x| x + {1}}}", [0, 1], "tt"),
     ("varcall_recv", "{0}.^idf", [0], "t"),
@@ -148,6 +161,13 @@ CHAIN_FORMS = [
     ("lit_reduce", "[1, 2, 3, 4]$(0){{|acc, x| ({b}(x) if x == {k} else t(x)) + acc}}"),
     ("lit_lonely_reduce", "[1, 2, 3, 4]&$(0){{|acc, x| ({b}(x) if x == {k} else t(x)) + acc}}"),
     ("var_list", "h := {{|x| {b}(x) if x == {k} else t(x)}};; [1, 2, 3, 4]@^h"),
+    ("var_strict", "h := {{|x| {b}(x) if x == {k} else t(x)}};; [1, 2, 3, 4]=@^h"),
+    ("var_lonely", "h := {{|x| {b}(x) if x == {k} else t(x)}};; [1, 2, 3, 4]&@^h"),
+    ("var_reduce", "h := {{|acc, x| ({b}(x) if x == {k} else t(x)) + acc}};; [1, 2, 3, 4]$(0)^h"),
+    ("str_list", '"abcd"@{{|c| {b}(c.ord - 96) if c.ord - 96 == {k} else t(c.ord - 96)}}'),
+    ("lit_list_arg", "[1, 2, 3, 4]@([9, 9, 9, 9]){{|x, y| {b}(x) if x == {k} else t(x)}}"),
+    ("prop_lonely", "mk := {{|i| {{i: i, m: {{|self| {b}(self.i) if self.i == {k} else t(self.i)}}}}}};; [mk(1), mk(2), mk(3), mk(4)]&@m"),
+    ("prop_reduce", "mk := {{|i| {{i: i, '+: {{|self, o| {b}(self.i) if self.i == {k} else t(self.i); o}}}}}};; [mk(2), mk(3), mk(4), mk(5)]$(mk(1))+"),
     ("prop_list", "mk := {{|i| {{i: i, m: {{|self| {b}(self.i) if self.i == {k} else t(self.i)}}}}}};; [mk(1), mk(2), mk(3), mk(4)]@m"),
     ("prop_strict", "mk := {{|i| {{i: i, m: {{|self| {b}(self.i) if self.i == {k} else t(self.i)}}}}}};; [mk(1), mk(2), mk(3), mk(4)]=@m"),
     ("range_list", "(1:5)@{{|x| {b}(x) if x == {k} else t(x)}}"),
@@ -205,9 +225,14 @@ def gen(chk):
                 cases.append((prog, expect(w, markers, b, holes[pos][0]), tpl[0] + "/" + w))
     # chain element k of n
     for name, fmt in CHAIN_FORMS:
+      for special in (None, "booms", "boomx"):
         for k in (1, 2, 3, 4):
             for w in ("plain", "try", "fn"):
                 b = booms[k % len(booms)] if w != "try" else "boom"
+                if special:
+                    if w == "fn" or (w == "try" and special == "boomx"):
+                        continue
+                    b = special
                 body = fmt.format(b=b, k=k)
                 if ";;" in body and w != "plain":
                     pre, body = body.rsplit(";; ", 1)
